@@ -8,6 +8,7 @@ P_mon1 == <<  <<"mlock", "mwait", "munlock", "mdone">>, <<"mlock", "mwait", "mun
 P_mon2 == <<  <<"mlock", "mtwait", "munlock", "mdone">>, <<"mlock", "mwait", "munlock", "mdone">>, <<"msetloop">>, <<"mset">> >>
 P_mon3 == <<  <<"mlock", "mtwait", "munlock">>, <<"mlock", "mtwait", "munlock">>, <<"mset">> >>
 P_sig4 == <<  <<"twait">>, <<"twait">>, <<"reset", "set">> >>
+P_sig5 == <<  <<"twait">>, <<"twait">>, <<"set", "reset">> >>
 P_mtx1 == <<  <<"lock", "lock", "unlock", "tlu", "unlock">>, <<"tlu", "lock", "unlock">>, <<"lock", "unlock">> >>
 P_sem1 == <<  <<"swait", "ssignal">>, <<"swait", "ssignal">>, <<"stwait", "ssignal">> >>
 P_sem2 == <<  <<"swait">>, <<"strywait", "ssignal">>, <<"stwait", "ssignal">> >>
